@@ -135,8 +135,11 @@ def make_run(p):
                         fs._touch_parent(f)
                         proj.validate(proj.root)
                         trace.append([op, f])
-                except exceptions.RopeError:
-                    raise PathAbort("operation refused")
+                except (exceptions.RopeError, OSError):
+                    # refused, or not performable any more (e.g. undo of a creation whose file an
+                    # external process has removed meanwhile raises FileNotFoundError on the real
+                    # file system too): the sequence is not one the property speaks about
+                    raise PathAbort("operation refused or failed")
                 if choose("q%d" % step, 2) or step == p["steps"] - 1:
                     warm = answers(proj)
                     fresh = answers(rproject.Project(ROOT, ropefolder=None, automatic_soa=False))
